@@ -3,6 +3,7 @@ import Csvq.Model.Proto
 import Csvq.Model.Text
 import Csvq.Model.Cast
 import Csvq.Model.ParseFloat
+import Csvq.Model.ParseTime
 namespace Csvq.Drive
 open Csvq Csvq.Proto
 
@@ -90,6 +91,10 @@ def c06 (cmd : String) (args : List String) : String :=
                            bool? := (match t with | .U => none | .T => some true | .F => some false), strU? := none, tern := t }
       showOpt toString p.int? ++ " " ++ showOpt showF p.flt? ++ " " ++ t.toStr ++ " " ++ showVal (castInteger p)
         ++ " " ++ showVal (castBoolean p)
+    | none => bad
+  | "sdt", [h] =>
+    match parseHexX h with
+    | some b => showOpt toString (PT.strToTime b)
     | none => bad
   | "itext", [i] =>
     match i.toInt? with
